@@ -352,6 +352,40 @@ def mk_DMA(r):
     return dma.WishboneDMAWriter(bus, with_csr=r.random() < 0.5)
 
 
+def mk_SoCMini(r):
+    """a whole SoC without CPU: bus interconnect, CSR bridge and banks, controller, timer, optional UART, SRAMs, a test master."""
+    import logging
+    logging.disable(logging.CRITICAL)
+    from migen import Record
+    from litex.build.generic_platform import GenericPlatform, Pins, Subsignal
+    from litex.soc.integration.soc_core import SoCMini
+    from litex.soc.interconnect import wishbone
+    with_uart = r.random() < 0.5
+    io = [("serial", 0, Subsignal("tx", Pins("A1")), Subsignal("rx", Pins("A2")))] if with_uart else []
+
+    class S(SoCMini):
+        def __init__(self):
+            SoCMini.__init__(self, GenericPlatform("dev", io=io), clk_freq=int(1e6), bus_standard=r.choice(["wishbone", "axi-lite"]),
+                             bus_interconnect=r.choice(["shared", "crossbar"]), bus_timeout=r.choice([64, None]),
+                             csr_data_width=r.choice([8, 32]), with_ctrl=True, with_timer=r.random() < 0.7,
+                             with_uart=with_uart, uart_name="serial", ident="c01" if r.random() < 0.5 else "", ident_version=False)
+            self.tb = wishbone.Interface(data_width=32, adr_width=30)
+            self.bus.add_master("tb", master=self.tb)
+            for k in range(r.randint(1, 2)):
+                self.add_ram("ram%d" % k, 0x20000000 + k * 0x10000000, r.choice([0x40, 0x100]))
+    s = S()
+    s.finalize()
+    # stimulus hints: addresses the test master should prefer (CSR banks, RAMs, and just beyond them)
+    adrs = []
+    for reg in s.bus.regions.values():
+        for off in (0, 1, 2, 3, reg.size // 4 - 1, reg.size // 4):
+            adrs.append((reg.origin >> 2) + off)
+    for name, reg in s.csr.regions.items() if hasattr(s.csr, "regions") else []:
+        for off in range(0, 12):
+            adrs.append((reg.origin >> 2) + off)
+    return s, {s.tb.adr: adrs, s.tb.sel: [15, 15, 1, 3, 12], s.tb.cti: [0], s.tb.bte: [0]}
+
+
 MAKERS = {
     "SyncFIFO": mk_SyncFIFO, "AsyncFIFO": mk_AsyncFIFO, "Converter": mk_Converter, "StrideConverter": mk_StrideConverter,
     "Gearbox": mk_Gearbox, "Buffer": mk_Buffer, "MuxDemux": mk_MuxDemux, "Packetizer": mk_Packetizer, "Depacketizer": mk_Depacketizer,
@@ -361,7 +395,7 @@ MAKERS = {
     "EventManager": mk_EventManager, "Timer": mk_Timer, "Watchdog": mk_Watchdog, "PWM": mk_PWM, "LedChaser": mk_LedChaser, "GPIO": mk_GPIO,
     "Encoder8b10b": mk_Encoder8b10b, "Decoder8b10b": mk_Decoder8b10b, "TMDS": mk_TMDS, "ECC": mk_ECC, "PRBS": mk_PRBS,
     "UARTPHY": mk_UARTPHY, "UART": mk_UART, "SPIMaster": mk_SPIMaster, "WaitTimer": mk_WaitTimer,
-    "PulseSynchronizer": mk_PulseSynchronizer, "FSMCounter": mk_FSMCounter, "DMA": mk_DMA,
+    "PulseSynchronizer": mk_PulseSynchronizer, "FSMCounter": mk_FSMCounter, "DMA": mk_DMA, "SoCMini": mk_SoCMini,
 }
 CORES = sorted(MAKERS)
 
@@ -372,6 +406,9 @@ def build(scn):
     from migen.fhdl.tools import list_signals, list_targets, list_clock_domains, list_special_ios
     r = random.Random(scn["param_seed"])
     core = MAKERS[scn["core"]](r)
+    hints = {}
+    if isinstance(core, tuple):
+        core, hints = core
     top = Module()
     top.submodules.dut = core
     f = top.get_fragment()
@@ -405,4 +442,4 @@ def build(scn):
     mems = sorted([m for m in f.specials if isinstance(m, Memory)], key=lambda m: m.duid)
     rsts = {n: cd for n, cd in cds.items() if cd.rst is not None and cd.rst not in targets}
     return {"module": f, "signals": order, "ios": ios, "cds": {n: cd for n, cd in cds.items() if cd.clk not in targets}, "inputs": inputs, "mems": mems,
-            "rsts": rsts}
+            "rsts": rsts, "hints": {i: hints[sg] for i, sg in enumerate(inputs) if sg in hints}}
